@@ -251,3 +251,15 @@ Definition explain (c : jcase) :=
    | Some d => Some (spec_jplan c d (j_allow c || j_exporter_allow c) (j_state c) (j_lines c))
    | None => None end,
    map (fun va => (verdict_char (fst va), snd va)) (judge_case c)).
+
+(* ---------- the text layer alone: the joint-action reader on arbitrary short texts (exhaustive small scope) ---------- *)
+Record jlexcase := { y_text : string; y_obs : obs (list (string * list string)) }.
+
+Definition jlex_model (c : jlexcase) : obs (list (string * list string)) :=
+  obs_of_result (do l <- parse_joint_call (unesc_s (y_text c)); Ok (map (fun a => (ac_name a, ac_args a)) l)).
+
+Definition jlex_agrees (c : jlexcase) : bool :=
+  obs_eqb (list_eqb (fun a b => String.eqb (fst a) (fst b) && list_eqb String.eqb (snd a) (snd b))) (jlex_model c) (y_obs c).
+
+Definition run_jlex (cases : list jlexcase) : string :=
+  t2s (map (fun c => if jlex_agrees c then "."%char else "a"%char) cases).
